@@ -11,7 +11,8 @@ RULE = ("programs [construct, DoGlobalIteration(1)..., Solve] of 2-4 solver inst
         "steps (70) and 3 x 2 (90) in quick, plus 2 x 6 (924), 3 x 3 (1680), 4 x 2 (2520), 2 x 8 (12870) and 3 x 4 (34650) in thorough, over scenario tuples in which one solver's optimum is its "
         "first trial (the shared-default mechanisms bite there), all 70 schedules of 2 x 4 steps for sibling tuples that differ in exactly one attribute (density, r, eps, objective, box, budget, nothing, proxies around one shared shipped problem object, or the very same Problem object handed to both solvers; one solver of such a pair also runs DoLocalRefinement in between), plus random long interleavings with construction-only intruders. After the schedule every solver's "
         "call log, search information and result must equal its solo run, and every Solution captured when it was returned must still report what it reported then. "
-        "Non-trivial: >= 2 solvers really interleaved; distinct = (tuple index, schedule).")
+        "Non-trivial: >= 2 solvers really interleaved; distinct = (tuple index, schedule)."
+       " In the objective-siblings both solvers refine; in a further kind another solver is driven to the method's floating-point guard around x = 0.5 between the steps of the observed solver.")
 ASSUMPTIONS = ["threads are deliberately not used: the code is not concurrent and the property quantifies over step interleavings",
                "solo reference runs are executed in the same process before the interleaving"]
 CHUNK = 2
